@@ -217,7 +217,11 @@ def or_fatal_jobs(ctx, n):
                 prog.append([v, kind, r.choice(toks) if kind == "Literal" else "ab"])
                 if r.random() < 0.3:
                     if r.random() < 0.5:
-                        prog.append(["_", "condition", v, False, {"fatal": r.random() < 0.2}])
+                        if r.random() < 0.3:   # several condition functions in one add_condition call share its options
+                            prog.append(["_", "condition", v, [True, r.random() < 0.5, r.random() < 0.5][: r.choice([2, 3])],
+                                         {"fatal": r.random() < 0.7}])
+                        else:
+                            prog.append(["_", "condition", v, False, {"fatal": r.random() < 0.2}])
                     else:
                         prog.append(["_", "action", v, r.choice([["failP"], ["failF"], ["none"]])])
                 elems.append(v)
